@@ -177,6 +177,7 @@ fn main() {
         "replay" => replay::replay_cmd(&args),
         "snap" => snap::snap_cmd(&args),
         "cpp-export" => cppexport::export_cmd(&args),
+        "mapping-histories" => targets::mapping_histories(&args),
         _ => {
             eprintln!("usage: vh cases|run|explore|replay ...");
             std::process::exit(2);
